@@ -629,6 +629,10 @@ func drawC42(rt *rapid.T) *c42Case {
 
 func TestC42(t *testing.T) {
 	rec := ev.New("C42", "std crypto/tls client -> MITM -> bfe_tls.Server; per case: suite (every suite of bfe_tls a std client can offer: AES-GCM, ChaCha20, AES-CBC-SHA, 3DES-CBC-SHA, RC4-SHA; ECDHE/RSA kx, RSA/ECDSA cert; plus SM4-CBC-SM3 with bfe_tls.Client as peer) x version TLS1.0/1.1/1.2, 1-6 client writes (1 byte .. 40000 bytes), close_notify or not, server transport read granularity, tamper script of 0-3 operations on the post-handshake client->server records (bit flip in header/IV/body/MAC, truncate, shrink, extend, drop, duplicate, replay later, swap, forged record, garbage, cut at/inside a record, header type/version/length rewrite, handshake record re-injection). non-trivial: the delivered stream differs from the sent one before a close_notify; distinct by the whole case")
+	if w, ok := replayWitness(t); ok {
+		replayC42(t, rec, w)
+		return
+	}
 	getCerts()
 	// deterministic sweep: every suite x version x every single operation on the 2nd record
 	for _, si := range c42Suites {
